@@ -672,6 +672,16 @@ def real_history(job):
     import warnings
     warnings.simplefilter("ignore")
     from typelib.py import classes
+    if job.get("control"):
+        # control run: slotted() replaced by the identity (the ORIGINAL dataclasses everywhere) -- tells a history Python itself
+        # cannot build from a history that only fails over slotted classes
+        class _Identity:
+            _stack = set()
+
+            @staticmethod
+            def slotted(_cls=None, **_kw):
+                return _cls if _cls is not None else (lambda c: c)
+        classes = _Identity
     mod = types.ModuleType(job["module"])
     sys.modules[job["module"]] = mod
     mod.__dict__["classes"] = classes
@@ -753,12 +763,25 @@ def evaluate(jobs, outs, res):
     lines, index = [], []
     for ji, (job, out) in enumerate(zip(jobs, outs)):
         if isinstance(out, dict) and "crash" in out:
-            raise RuntimeError(f"harness: history failed to materialise: {out}")
+            # does Python build this history over the original classes?  then the crash is slotted()'s doing: its results cannot be
+            # used where the originals can
+            ctl = iso.map_isolated(real_history, [dict(job, control=True)])[0]
+            if isinstance(ctl, dict) and "crash" in ctl:
+                raise RuntimeError(f"harness: history failed to materialise: {out}; control run (slotted = identity): {ctl.get('crash')}")
+            res.failures.append({"what": "a history of class definitions that Python builds over the original dataclasses cannot be built over "
+                                         f"the classes slotted() returned: {out['crash']}", "input": {"job": job, "step": 0}})
+            lines.append(None)
+            index.append(None)
+            continue
         live = [i for i, o in enumerate(out) if "skip" not in o]
         lines.append({"op": "slotted.run", "steps": [lean_step(job["steps"][i], out[i]["desc"]) for i in live]})
         index.append(live)
-    models = lean.drive(lines) if lines else []
+    drv = lean.drive([l for l in lines if l is not None]) if any(l is not None for l in lines) else []
+    it = iter(drv)
+    models = [next(it) if l is not None else None for l in lines]
     for job, out, live, model in zip(jobs, outs, index, models):
+        if model is None:
+            continue
         if "bad" in model:
             raise RuntimeError(f"harness: driver rejected a history: {model}")
         res.programs += 1
@@ -919,6 +942,10 @@ def replay(failure):
     evaluate([job], [out], res)
     mine = [f for f in res.failures if f["input"]["step"] == i]
     dis = [d for d in res.disagreements if d["input"]["step"] == i]
+    if isinstance(out, dict):
+        print(json.dumps({"history": [[s["kind"], s["name"]] for s in job["steps"]], "outcome": out.get("crash"),
+                          "failures": [f["what"] for f in mine]}, indent=1, default=str)[:3000])
+        return bool(mine)
     print(json.dumps({"history": [[s["kind"], s["name"]] for s in job["steps"]], "step": i,
                       "spec": {k: v for k, v in job["steps"][i].items() if k != "args"},
                       "real": out[i].get("real"), "guard": out[i].get("stack"),
